@@ -967,6 +967,23 @@ def size_accounting(ctx, rid):
                        "v2 [%s]: size = %s, remaining decreases by %s%s; must both be %s - the bytes attributed to pieces no longer add up to the file length" % (
                            label, size_v, dec_v, " (size read after the decrement)" if order_bad else "", want), "advance :: " + label)
     if not done:
+        # the closed form:  size = min(remaining, piece_length);  remaining -= size
+        mins = [n for n in fn.node.body if isinstance(n, ast.Assign) and len(n.targets) == 1 and isinstance(n.targets[0], ast.Name) and n.targets[0].id == SIZE
+                and isinstance(n.value, ast.Call) and isinstance(n.value.func, ast.Name) and n.value.func.id == "min" and len(n.value.args) == 2 and not n.value.keywords]
+        if len(mins) == 1:
+            a0, a1 = norm(mins[0].value.args[0]), norm(mins[0].value.args[1])
+            rem_txt = a0 if "piece_length" in a1 else a1 if "piece_length" in a0 else None
+            pl_txt = a1 if rem_txt == a0 else a0
+            decs = [n for n in fn.node.body if isinstance(n, ast.AugAssign) and isinstance(n.op, ast.Sub) and rem_txt is not None and norm(n.target) == rem_txt]
+            other_defs = [n for n in own_nodes(fn.node) if n is not mins[0] and isinstance(n, ast.Name) and n.id == SIZE and isinstance(n.ctx, ast.Store) and n is not mins[0].targets[0]]
+            if rem_txt is not None and "length" in rem_txt and "piece_length" not in rem_txt and pl_txt.endswith("piece_length") and not other_defs:
+                done = True
+                after = len(decs) == 1 and fn.node.body.index(decs[0]) > fn.node.body.index(mins[0])
+                ok = after and norm(decs[0].value) == SIZE
+                ctx.decide(rid, fn, ok, "v2: size = min(remaining, piece length) and the remaining length decreases by that size",
+                           "v2: size = min(%s, %s) but the remaining length %s: the bytes attributed to pieces no longer add up to the file length" % (
+                               rem_txt, pl_txt, ("decreases by %s" % norm(decs[0].value)) if len(decs) == 1 else "is not decreased exactly once"), "advance :: min form")
+    if not done:
         ctx.undecided(rid, fn, "size accounting of HashChecker.advance not found")
     rets = [n for n in own_nodes(fn.node) if isinstance(n, ast.Return) and isinstance(n.value, ast.Tuple) and len(n.value.elts) == 2]
     ok = bool(rets) and all(norm(r.value.elts[1]) == SIZE for r in rets)
@@ -1349,12 +1366,30 @@ def exhaustion_guard(ctx, rid):
     fn = ctx.prog.func("torrentfile.recheck:HashChecker.process_current")
     consts = module_consts(ctx.prog.modules["torrentfile.recheck"])
     handlers = [h for n in own_nodes(fn.node) if isinstance(n, ast.Try) for h in n.handlers if h.type is not None and "StopIteration" in norm(h.type)]
-    if not handlers:
+    # the same event without an exception: layer = next(self.hasher, <sentinel>) and a test of the sentinel
+    sentinels = [n for n in own_nodes(fn.node) if isinstance(n, ast.Assign) and isinstance(n.value, ast.Call) and isinstance(n.value.func, ast.Name) and n.value.func.id == "next"
+                 and len(n.value.args) == 2 and isinstance(n.value.args[1], ast.Constant) and "hasher" in norm(n.value.args[0])]
+    if not handlers and not sentinels:
         ctx.undecided(rid, fn, "StopIteration handler of process_current not found")
         return
+
+    class _T:        # a guard under which the stand-in hasher is installed, as the tests of the handler's `if` used to be
+        def __init__(self, test):
+            self.test = test
     tests = [st for h in handlers for st in h.body if isinstance(st, ast.If)]
+    if sentinels and not handlers:
+        g = C.cfg_of(fn)
+        standins = [n for n in own_nodes(fn.node) if isinstance(n, ast.Assign) and any(isinstance(t, ast.Attribute) and t.attr == "hasher" for t in n.targets)]
+        tests = []
+        for sn_ in standins:
+            for b, lab in g.control_deps(C.stmt_node(ctx, fn, sn_)):
+                t = C.test_expr(b)
+                if t is not None and not any(isinstance(x, ast.Name) and x.id in {norm(s_.targets[0]) for s_ in sentinels} for x in ast.walk(t)):
+                    tests.append(_T(t))
+        if not standins:
+            tests = []
     if not tests:
-        ctx.violated(rid, fn, "when the file on disk ends early nothing stands in for the missing pieces: a truncated file's remaining pieces are never compared", handlers[0])
+        ctx.violated(rid, fn, "when the file on disk ends early nothing stands in for the missing pieces: a truncated file's remaining pieces are never compared", (handlers or sentinels)[0])
         return
     for st in tests:
         atoms = C.atoms_of(st.test)
